@@ -103,7 +103,7 @@ def run_cases(mod, cases, driver, stats):
         for (req, expected, label, case), got in zip(pending, answers):
             if "bad" in got:
                 raise HarnessError("driver rejected a request (%s): %s" % (label, got["bad"]))
-            if req.get("op") in ("bstep", "cstep", "sstep"):
+            if req.get("op") in ("bstep", "cstep", "sstep", "tstep"):
                 # `_select_star_tables` is a set: compare as sorted lists; the generic comparison applies
                 if "star_tables" in got:
                     got["star_tables"].sort(key=lambda x: json.dumps(x, sort_keys=True))
